@@ -151,7 +151,7 @@ class Flow:
                 return e[1]
             return ("deref", e)
         if k == "field":
-            if e[0] == "agg" and p["i"] < len(e[2]) and e[1][0] != "enum?":
+            if e[0] == "agg" and p["i"] < len(e[2]) and e[1][0] in ("tuple", "closure", "array"):
                 return e[2][p["i"]]
             return ("field", e, p["n"], p["i"], p.get("bt"))
         if k == "index":
